@@ -100,12 +100,26 @@ def r14_8_memo_inventory(chk):
     # R14.1: ushort is only called with the bit sum
     us = ix.find_function("ushort")
     if us is not None and any(m.func is us for m in memos):
-        sites = chk.cg.callers_of(us)
-        for s in sites:
-            arg = norm(s.node.args[0]) if isinstance(s.node, ast.Call) and s.node.args else ""
-            chk.require(arg.startswith("sum("), "R14.1", f"ushort-key-is-int:{s.caller.short}",
-                        f"the cached ushort() is called with `{arg}`: keys that compare equal but encode differently "
-                        f"(True / 1 / 1.0) could collide", f"{s.caller.module.relpath}:{s.lineno}")
+        from ..terms import alternatives, call_arg, pp, is_call
+
+        def int_typed(t):
+            # an expression whose result is an int whatever the operands' types: sum(...) / int(...) / len(...),
+            # int constants, and + * | & << of such
+            if t[0] == "const":
+                return type(t[1]) is int
+            if is_call(t, ("sum", "int", "len")) and t[1][0] == "global":
+                return True
+            if t[0] == "bin" and t[1] in ("+", "*", "|", "&", "<<", "-"):
+                return int_typed(t[2]) and int_typed(t[3])
+            return False
+        for caller in sorted({s.caller for s in chk.cg.callers_of(us)}, key=lambda f: f.short):
+            summ = chk.summary(caller)
+            for c in summ.all_calls("ushort"):
+                arg = call_arg(c, 0)
+                ok = arg is not None and all(int_typed(a) for _, a in alternatives(arg))
+                chk.require(ok, "R14.1", f"ushort-key-is-int:{caller.short}",
+                            f"the cached ushort() is called with `{pp(arg) if arg else '?'}`: keys that compare equal "
+                            f"but encode differently (True / 1 / 1.0) could collide", caller.where)
     from . import c06
     n0 = len(chk.obs)
     c06.r06_7_no_memo(chk)
@@ -279,7 +293,14 @@ def r14_7_global_containers(chk):
     chk.info["module_and_class_level_containers"] = [f"{m.name}:{(c.name + '.') if c else ''}{n}" for m, c, n, e in glob]
     names = {(c.name if c else None, n) for m, c, n, e in glob}
     plain = {n for m, c, n, e in glob}
+    from ..common import import_time_registrars
+    registrars = set()
+    for m, c, n, e in glob:
+        if c is None:
+            registrars |= {(m.name, r) for r in import_time_registrars(ix, m, n)}
     for f in ix.functions.values():
+        if any(f.module.name == mn and f.qualname.endswith(r) for mn, r in registrars):
+            continue  # the inner function of a registry decorator: runs at import time only (see common.py)
         for s in stores_in(f):
             hit = False
             if s.attr in plain and isinstance(s.base, (ast.Name, ast.Attribute)):
